@@ -155,6 +155,9 @@ class SmallEval:
         if k == 'call':
             name = t[1]
             kw = dict(t[3])
+            if name in ('numpy.sum', 'numpy.mean') and t[2] and t[2][0][0] not in ('list', 'tuple', 'comp'):
+                # np.sum(M, axis=k) delegates to M.sum(axis=k)
+                return self.ev(('meth', name.split('.')[-1], t[2][0], tuple(t[2][1:]), tuple(t[3])))
             if name in ('scipy.sparse.coo_matrix', 'scipy.sparse.csr_matrix', 'scipy.sparse.csc_matrix') and t[2] \
                     and t[2][0][0] == 'tuple' and len(t[2][0][1]) == 2 and t[2][0][1][1][0] == 'tuple':
                 data = self.ev(t[2][0][1][0])
